@@ -133,7 +133,8 @@ def run_case(case):
                     else:
                         refs.set_path(msg, var, rng.choice([1, 42, 9007199254740993]))
                 classes.append(cls)
-                rest_ok = True
+                # a `custom` verb is not transcoded by the REST transport (the method is not offered there): judged on gRPC / asyncio
+                rest_ok = verb in ("GET", "PUT", "POST", "DELETE", "PATCH")
                 if m.name == "PrimaryPlain" and t % 2:
                     # values that would satisfy an additional binding must still produce no header
                     msg.name = "projects/" + rng.choice(PLAIN)
